@@ -89,9 +89,10 @@ def cmd : Cmd → Json
 
 def entry (e : Entry) : Json := Json.arr #[cmd e.cmd, nat e.idx, nat e.term]
 
-def res : Option (Desc × Nat) → Json
-  | none => Json.null
-  | some (d, a) => Json.arr #[desc d, nat a]
+def res : Res → Json
+  | .none => Json.null
+  | .value d a => Json.arr #[desc d, nat a]
+  | .keyError f => Json.arr #[Json.str "keyError", nat f]
 
 def ev : Ev → Json
   | .ran i d a => Json.arr #[Json.str "ran", nat i, desc d, nat a]
